@@ -133,9 +133,13 @@ var pool = sync.Pool{
 // Log writes a log line for the request that was executed
 // between t1 and t2.
 func (l *logger) Log(e *Event) {
+	// the time fields are rendered with a fixed UTC zone
+	ev := *e
+	ev.Start, ev.End = e.Start.UTC(), e.End.UTC()
+
 	b := pool.Get().(*bytes.Buffer)
 	b.Reset()
-	l.p.write(b, e)
+	l.p.write(b, &ev)
 	l.mu.Lock()
 	l.w.Write(b.Bytes())
 	l.mu.Unlock()
